@@ -88,7 +88,10 @@ class SimulatedExecutionEnvironment(ExecutionEnvironment):
         for fluent in problem.fluents:
             # the per-fluent default takes precedence over the per-type default
             default_value = problem.fluents_defaults.get(
-                fluent, problem.initial_defaults.get(fluent.type, False)
+                fluent,
+                problem.initial_defaults.get(
+                    fluent.type, False if fluent.type.is_bool_type() else None
+                ),
             )
             deterministic_problem.add_fluent(
                 fluent, default_initial_value=default_value
